@@ -1,4 +1,5 @@
 """C06 - detection flags exactly the violating records and agrees with verification."""
+import datetime
 from typing import List, Optional
 
 from vp.ob import Ob
@@ -58,6 +59,36 @@ def k1_min_max(vals: List[Optional[int]], bound: int, prec: int, is_max: bool) -
     else:
         pred = (lambda x: x > bound) if PRECS[prec] == 'open' else (lambda x: x >= bound)
     want = _expect(vals, pred)
+    if ok:
+        return got is None and all(w is None or w for w in want)
+    return _same_flags(got, want) and any(w is False for w in want)
+
+
+EPOCH = datetime.datetime(2000, 1, 1)
+
+
+def _day(d):
+    return None if d is None else EPOCH + datetime.timedelta(days=d)
+
+
+def k1_date_min_max(days: List[Optional[int]], bound: int, prec: int, is_max: bool) -> bool:
+    """
+    pre: 1 <= len(days) <= P['rows'] and 0 <= prec < 3 and 0 <= bound <= 3
+    pre: all(d is None or 0 <= d <= 3 for d in days)
+    post: __return__
+    """
+    # date bounds: open is strict, closed and fuzzy are not (dates are never fuzzy); the flags follow the verdict
+    with symdf.patched(pc):
+        v = pc.PandasConstraintVerifier(SymFrame({'c': symdf.date_series([_day(d) for d in days])}), epsilon=0.01)
+        C = MaxConstraint if is_max else MinConstraint
+        f = v.verify_max_constraint if is_max else v.verify_min_constraint
+        ok = bool(f('c', C(_day(bound), precision=PRECS[prec]), True))
+    got = _flags(v, 'c_max_ok' if is_max else 'c_min_ok')
+    if is_max:
+        pred = (lambda x: x < bound) if PRECS[prec] == 'open' else (lambda x: x <= bound)
+    else:
+        pred = (lambda x: x > bound) if PRECS[prec] == 'open' else (lambda x: x >= bound)
+    want = _expect(days, pred)
     if ok:
         return got is None and all(w is None or w for w in want)
     return _same_flags(got, want) and any(w is False for w in want)
@@ -369,6 +400,10 @@ def _obs():
                       'beyond the bound (strictly for open precision), null records are not flagged; passing: no '
                       'column', 'int column of 1..%d rows, ANY ints/nulls; bound any int; 3 precisions; epsilon 0'
                       % rows, param={'rows': rows}, timeout=to, tier=tier, stubs=['symdf']))
+        obs.append(Ob('K1', 'k1_date_min_max', 'failing min/max with a date bound: flags false exactly on the non-null '
+                      'records beyond the bound - strictly beyond for closed and fuzzy, at or beyond for open',
+                      'date column of 1..%d rows, day offsets 0..3 or null; bound offset 0..3; 3 precisions; epsilon '
+                      '0.01' % min(rows, 3), param={'rows': min(rows, 3)}, timeout=to, tier=tier, stubs=['symdf']))
         obs.append(Ob('K1', 'k1_detect_dispatch', 'per-record min/max flags with a non-zero epsilon: closed and open '
                       'precision never consult the fuzzy comparison; fuzzy precision is decided by it alone, called '
                       'with (column, bound, epsilon)', 'int column of 1..%d rows; bound any int; 3 precisions; epsilon '
